@@ -100,7 +100,15 @@ type Discipline struct {
 	Registrar string
 }
 
+// FieldDiscipline: a struct field that only the listed functions of the package may touch.
+type FieldDiscipline struct {
+	Struct, Field string
+	Allowed       []string
+	Tags          []string
+}
+
 type Unit struct {
+	FieldDisciplines []FieldDiscipline
 	Disciplines []Discipline
 	Name     string
 	Pkg      string
@@ -488,6 +496,28 @@ func (cs *ContractSet) parseFile(file, relDir string) error {
 			unit.Specs[sf.Name] = sf
 			unit.SpecList = append(unit.SpecList, sf)
 		case "discipline":
+			if unit != nil && strings.HasPrefix(s.rest, "field ") {
+				// discipline field <Struct>.<field> only-in f1, f2, ... tags C06 C14
+				rest := strings.TrimPrefix(s.rest, "field ")
+				var tags []string
+				if k := strings.Index(rest, " tags "); k >= 0 {
+					tags = strings.Fields(rest[k+6:])
+					rest = rest[:k]
+				}
+				k := strings.Index(rest, " only-in ")
+				if k < 0 || !strings.Contains(rest[:k], ".") {
+					return fmt.Errorf("%s:%d: discipline field S.f only-in f1, f2 tags T", file, s.line)
+				}
+				sf := strings.SplitN(strings.TrimSpace(rest[:k]), ".", 2)
+				var allowed []string
+				for _, a := range splitTop(rest[k+9:], ',') {
+					if a = strings.TrimSpace(a); a != "" {
+						allowed = append(allowed, qualifyKey(a, pkgName))
+					}
+				}
+				unit.FieldDisciplines = append(unit.FieldDisciplines, FieldDiscipline{sf[0], sf[1], allowed, tags})
+				continue
+			}
 			f := strings.Fields(s.rest)
 			if unit == nil || len(f) != 4 || f[0] != "closure-calling" || f[2] != "only-arg-of" {
 				return fmt.Errorf("%s:%d: discipline closure-calling <callee> only-arg-of <registrar>", file, s.line)
